@@ -23,7 +23,7 @@ VERIF = os.path.dirname(os.path.dirname(os.path.abspath(__file__)))
 
 # wrappers around a read that only change how the bytes are displayed (the model keeps the raw bytes and applies them when rendering;
 # the wrapper texts themselves are pinned by the layout tables of extract_layouts.py)
-DISPLAY_WRAPPERS = ("bytes.decode(%s).strip('\\x00')", "bytes.decode(%s).rstrip('\\x00')")
+DISPLAY_WRAPPERS = ("bytes.decode(%s).strip('\\x00')", "bytes.decode(%s).rstrip('\\x00')", "bytes.decode(%s)", "'0x' + %s.hex()")
 
 TARGETS = [
     # label, file, class, function, name of the stream parameter
@@ -42,6 +42,11 @@ TARGETS = [
 # wrappers around an integer read that only change how it is displayed
 INT_WRAPPERS = ("chr(%s)",)
 # a constructor made of a straight part and one final `while` loop: head, loop condition and loop body are emitted separately
+# the straight reading part of a toJSON method, up to (not including) the statement that starts building the display; nothing
+# after it may mention the stream
+HEAD_TARGETS = [
+    ("src_head", "modules/pel/peltool/src.py", "SRC", "toJSON", "self.stream", "out = OrderedDict()"),
+]
 SPLIT_TARGETS = [
     ("callout", "modules/pel/peltool/src.py", "Callout", "__init__", "stream"),
 ]
@@ -431,7 +436,30 @@ def main():
                 sys.stderr.write("extract_readers: %s.%s: %s\n" % (cls, fn, u))
                 lines.append("(* outside the fragment: %s *)" % u.replace("*)", "* )").replace("(*", "( *")[:200])
             lines.append("Definition prog_%s : st :=\n  %s.\n" % (label, term))
-        except (Unsupported, OSError, SyntaxError) as e:
+        except Exception as e:  # noqa: BLE001 (fail-closed: whatever goes wrong gives the stub)
+            sys.stderr.write("extract_readers: %s: %s\n" % (label, e))
+            ok = False
+            lines.append("(* STUB: %s *)" % str(e).replace("*)", "* )").replace("(*", "( *")[:300])
+            lines.append("Definition prog_%s : st := TUnknown.\n" % label)
+    for label, rel, cls, fn, stream, stop in HEAD_TARGETS:
+        try:
+            tree = ast.parse(open(os.path.join(ROOT, rel)).read())
+            f, consts = find(tree, cls, fn)
+            body = [b for b in f.body if not (isinstance(b, ast.Expr) and isinstance(b.value, ast.Constant))]
+            cut = [i for i, b in enumerate(body) if ast.unparse(b) == stop]
+            if len(cut) != 1:
+                raise Unsupported("%s.%s: the statement `%s` does not occur exactly once at the top level" % (cls, fn, stop))
+            tr = Tr(consts, stream)
+            tr.is_tojson = tr.in_loop = True
+            tr.records, tr.peek_ok = module_facts(tree)
+            if any(tr.is_stream(n) for b in body[cut[0]:] for n in ast.walk(b)):
+                raise Unsupported("%s.%s mentions its stream after `%s`" % (cls, fn, stop))
+            term = tr.block(body[:cut[0]])
+            for u in tr.unknown:
+                sys.stderr.write("extract_readers: %s.%s: %s\n" % (cls, fn, u))
+                lines.append("(* outside the fragment: %s *)" % u.replace("*)", "* )").replace("(*", "( *")[:200])
+            lines.append("Definition prog_%s : st :=\n  %s.\n" % (label, term))
+        except Exception as e:  # noqa: BLE001 (fail-closed: whatever goes wrong gives the stub)
             sys.stderr.write("extract_readers: %s: %s\n" % (label, e))
             ok = False
             lines.append("(* STUB: %s *)" % str(e).replace("*)", "* )").replace("(*", "( *")[:300])
@@ -457,7 +485,7 @@ def main():
             lines.append("Definition prog_%s_head : st :=\n  %s.\n" % (label, head))
             lines.append("Definition guard_%s : cd := %s.\n" % (label, guard))
             lines.append("Definition prog_%s_body : st :=\n  %s.\n" % (label, loop))
-        except (Unsupported, OSError, SyntaxError) as e:
+        except Exception as e:  # noqa: BLE001 (fail-closed: whatever goes wrong gives the stub)
             sys.stderr.write("extract_readers: %s: %s\n" % (label, e))
             ok = False
             lines.append("(* STUB: %s *)" % str(e).replace("*)", "* )").replace("(*", "( *")[:300])
@@ -490,7 +518,7 @@ def main():
                 lines.append("(* outside the fragment: %s *)" % u.replace("*)", "* )").replace("(*", "( *")[:200])
             lines.append("Definition data_of_%s : list N := %s." % (label, T(ast.unparse(made[0].value.args[0]))))
             lines.append("Definition prog_%s : st :=\n  %s.\n" % (label, term))
-        except (Unsupported, OSError, SyntaxError) as e:
+        except Exception as e:  # noqa: BLE001 (fail-closed: whatever goes wrong gives the stub)
             sys.stderr.write("extract_readers: %s: %s\n" % (label, e))
             ok = False
             lines.append("(* STUB: %s *)" % str(e).replace("*)", "* )").replace("(*", "( *")[:300])
@@ -516,7 +544,7 @@ def main():
                 sys.stderr.write("extract_readers: %s: %s\n" % (fn, u))
                 lines.append("(* outside the fragment: %s *)" % u.replace("*)", "* )").replace("(*", "( *")[:200])
             lines.append("Definition prog_%s : st :=\n  %s.\n" % (label, term))
-        except (Unsupported, OSError, SyntaxError) as e:
+        except Exception as e:  # noqa: BLE001 (fail-closed: whatever goes wrong gives the stub)
             sys.stderr.write("extract_readers: %s: %s\n" % (label, e))
             ok = False
             lines.append("(* STUB: %s *)" % str(e).replace("*)", "* )").replace("(*", "( *")[:300])
